@@ -4,7 +4,10 @@ package main
 
 import (
 	"fmt"
+	"io"
 	"os"
+
+	"github.com/sirupsen/logrus"
 )
 
 type subcmd func(cfg *Config) *Result
@@ -12,6 +15,10 @@ type subcmd func(cfg *Config) *Result
 var subcmds = map[string]subcmd{}
 
 func main() {
+	// the library logs transient errors through logrus; keep the streams' own output clean
+	if os.Getenv("VERIF_LIBLOG") == "" {
+		logrus.SetOutput(io.Discard)
+	}
 	if len(os.Args) < 2 {
 		fmt.Fprintln(os.Stderr, "usage: harness <stream> [flags]")
 		os.Exit(2)
